@@ -235,6 +235,9 @@ class WitnessModel(Model):
             if name in ('flatten',):
                 to = kwargs.get('to')
                 if rows_of(recv) is not None:
+                    want = kwargs.get('dims')
+                    if want is not None and [d for d in want] != list(recv.members['dims']) and not all(a is b or a == b for a, b in zip(want, recv.members['dims'], strict=False)):
+                        raise RaiseSignal('DimensionError', node, interp.where(node), ('flatten: dims are not contiguous in this order',))
                     flat = [x for r in rows_of(recv) for x in items_of(r)]
                     return self.array(interp, flat, to or 'flat', like=recv)
                 return self.array(interp, items_of(recv), to or recv.members['dims'][0], like=recv)
@@ -248,7 +251,21 @@ class WitnessModel(Model):
                 bools = [self._truth(x) for x in self._flat(recv)]
                 return self.const_bool(interp, any(bools) if name == 'any' else all(bools))
             if name == 'transpose':
-                return recv
+                want = kwargs.get('dims', args[0] if args else None)
+                dims = recv.members['dims']
+                if rows_of(recv) is None or want is None and len(dims) == 1:
+                    return recv
+                want = list(reversed(dims)) if want is None else list(want)
+                same = lambda a, b: a is b or (isinstance(a, str) and isinstance(b, str) and a == b)  # noqa: E731
+                if len(want) != 2 or not ((same(want[0], dims[0]) and same(want[1], dims[1])) or (same(want[0], dims[1]) and same(want[1], dims[0]))):
+                    raise RaiseSignal('DimensionError', node, interp.where(node), ('transpose: dims do not match',))
+                if same(want[0], dims[0]):
+                    return recv
+                rows = rows_of(recv)
+                n_in = len(items_of(rows[0])) if rows else 0
+                cols = [self.array(interp, [items_of(r)[j] for r in rows], dims[0], like=recv) for j in range(n_in)]
+                m = self.matrix(interp, cols, dims[1]) if cols else recv
+                return m
             if name == 'sum':
                 total = None
                 for x in self._flat(recv):
@@ -341,6 +358,20 @@ class WitnessModel(Model):
         r.members['dims'] = []
         return r
 
+    def sc_arange(self, interp, args, kwargs, node):
+        nums = [x for x in args[1:]]
+        if args and nums and all(isinstance(x, int) and not isinstance(x, bool) for x in nums) and len(nums) <= 3:
+            unit = self._unit_arg(interp, kwargs.get('unit', None) if 'unit' in kwargs else 'dimensionless', node)
+            items = []
+            for k in range(*nums):
+                it = self.new(interp, Rat.const(k) * unit.scale(), unit, kwargs.get('dtype') or 'int64')
+                it.members['dims'] = []
+                items.append(it)
+            r = self.array(interp, items, args[0])
+            r.unit, r.dtype = unit, kwargs.get('dtype') or 'int64'
+            return r
+        return super().sc_arange(interp, args, kwargs, node)
+
     def call_ext(self, interp, path, args, kwargs, node):
         if path == 'operator.attrgetter' and len(args) == 1 and isinstance(args[0], str):
             return _AttrGetter(args[0])
@@ -353,6 +384,11 @@ class WitnessModel(Model):
             return len(items_of(args[0])) if items_of(args[0]) is not None else len(rows_of(args[0]))
         if name == 'bool' and args and isinstance(args[0], SVar) and 'concrete' in args[0].members:
             return bool(args[0].members['concrete'])
+        if name in ('round', 'int') and len(args) == 1 and isinstance(args[0], SVar) and not self._is_arr(args[0]) \
+                and args[0].kind in ('raw', 'pyfloat') and self.value(args[0]) is not None:
+            # a count derived from the data: decided at the witness
+            v = self.value(args[0])
+            return round(v) if name == 'round' else int(v)
         if name in ('sorted', 'min', 'max') and args and (kwargs.get('key') is not None or name == 'sorted'):
             seq = interp.iterate(args[0], node)
             key = kwargs.get('key')
